@@ -69,7 +69,8 @@ def run(R):
     levels = ["O2"] if quick else ["O1", "O2", "O3"]
     stds = ["c++20"] if quick else ["c++20", "c++2b"]
     if quick:
-        keep = {"neg", "abs", "ceil", "floor", "isnan", "fx_add", "fx_sub", "fx_mul", "fx_div", "fxeq_add", "cmp_lt", "shl", "shr",
+        keep = {"neg", "abs", "ceil", "floor", "isnan", "fx_add", "fx_sub", "fx_mul", "fx_div", "fxeq_add", "fxeq_sub", "fxeq_mul",
+                "fxeq_div", "eq_add_i32", "eq_mul_i32", "eq_div_u8", "eq_sub_f32", "cmp_lt", "shl", "shr",
                 "hypot", "sqrt", "sqrt_abacus", "r_mul_i32", "l_sub_f32", "r_div_u64", "to_fixed_f64", "to_fixed_i64",
                 "from_fixed_u8", "from_fixed_f32", "a2r_u8", "angle_arg_i16", "sin", "tan", "atan", "asin", "atan2"}
         core_sel = [u for u in core if u.name in keep]
@@ -104,9 +105,13 @@ def run(R):
                     pre = z3.And(D, z3.Not(c1.res.ub_any()))
                     hard = u.name in series or u.name in HARD or u.name.startswith(("sin_", "cos_", "tan_"))
                     kind = "hunt" if hard and not ab else "verify"
-                    return Ob(name, kind, ins, [c1, c2], pre, c1.out == c2.out, abstract=ab, comm_lemmas=False,
-                              portfolio=("z3", "cvc5"), timeout=60 if quick else 300,
-                              note="same result bits for every argument: %s" % name)
+                    ob_ = Ob(name, kind, ins, [c1, c2], pre, c1.out == c2.out, abstract=ab, comm_lemmas=False,
+                             portfolio=("z3", "cvc5"), timeout=60 if quick else 300,
+                             note="same result bits for every argument: %s" % name)
+                    ob_.cross_config = True
+                    ob_.natives = [("g++", "-O0"), ("g++", "-O2"), ("g++", "-O3"), ("clang++-14", "-O0"), ("clang++-14", "-O1"),
+                                   ("clang++-14", "-O2"), ("clang++-14", "-O3")]
+                    return ob_
                 ob = build(True)
                 ob.fallback = lambda b=build: b(False)
                 R._add(ob)
